@@ -45,10 +45,10 @@ SPEC = {
  "tieA_required": True,
  "tie": [
   "tie/CounterEquiv.vo",
-  "tie/HandleEquiv.vo"
+  "tie/HandleEquiv.vo", "tie/CorePinned.vo"
  ],
  "gen_items": [
-  "src/bytes/raw/allocated.rs:slice_unchecked + explicit_clone",
+  "src/bytes/raw/allocated.rs:slice_unchecked + explicit_clone", "src/bytes/raw*.rs + src/smart.rs:pinned bodies",
   "src/smart.rs:impl Kind for Rc::incr",
   "src/smart.rs:impl Kind for Rc::decr",
   "src/smart.rs:impl Kind for Rc::get",
